@@ -169,7 +169,7 @@ PROPS = {
         ],
     },
     "C10": {
-        "lean_modules": ["DocsModel.Props.C10", "DocsModel.Props.C10Pair", "DocsModel.Props.C10Converge"],
+        "lean_modules": ["DocsModel.Props.C10", "DocsModel.Props.C10Pair", "DocsModel.Props.C10Converge", "DocsModel.Props.C10Actor"],
         "trusted_base": COMMON_TRUST + [
             "tokio scheduling, tokio::io::duplex, tokio_util::codec framing and the real quic streams are not modelled; the model is a function of the finite frame list the peer sends",
             "hook H3 (export of run_alice, BobState and the frame codec); H1 (global clock)",
